@@ -107,20 +107,24 @@ def gap_class(gap):
     return "<0.05" if gap < 0.05 else "<0.5" if gap < 0.5 else ">=0.5"
 
 
-UNBOUNDED = ("generating Weibull shape < 1.3 with free location and fitted shape < 1: the likelihood is unbounded, "
+UNBOUNDED = ("generating Weibull shape < 1.3 (< 1.7 for samples of at most 100 points) with free location and fitted shape < 1: the likelihood is unbounded, "
              "no maximiser exists")
 UNBOUNDED_TRUTH_BETA = 1.3
+UNBOUNDED_TRUTH_BETA_SMALL_N = 1.7   # 100-point samples of shape 1.39 were seen to end in the spike (soak, seed 23)
 CONCENTRATED = ("concentrated 3-parameter Weibull sample (scale 0.03..0.3, location 0.5..1.5 or its rescaling): the default "
                 "start values are far from the data's scale")
 NEGATIVE_C = "fitted c < 0: scipy.stats.gengamma is also a law for negative c, the search is unconstrained"
 
 
 def unbounded_class(case, *fitted):
-    """the known input class of the 3-parameter Weibull: keyed on the CASE (generating shape below 1.3 - where samples
+    """the known input class of the 3-parameter Weibull: keyed on the CASE (generating shape below 1.3, below 1.7 for samples
+    of at most 100 points - where samples
     of 100..5000 points can have a likelihood spike at the smallest observation -, location free) and only then on the
     fitted shape; a fit that ends below shape 1 on data from a clearly regular member (shape >= 1.3) is NOT in the class"""
     return (case["family"] == "Weibull" and "gamma" not in case.get("fixed", ()) and case.get("data_family") is None
-            and case["truth"]["beta"] < UNBOUNDED_TRUTH_BETA and any(f["beta"] < 1.0 for f in fitted))
+            and (case["truth"]["beta"] < UNBOUNDED_TRUTH_BETA
+                 or (case["n"] <= 100 and case["truth"]["beta"] < UNBOUNDED_TRUTH_BETA_SMALL_N))
+            and any(f["beta"] < 1.0 for f in fitted))
 
 
 def draw_truth(name, rng):
